@@ -31,6 +31,12 @@ type vfc03Scenario struct {
 	Shared  bool                  // some final label set is held by two streams / twice in one stream
 	Resort  bool                  // some store needs the proxy-side re-sort
 	DupSame bool                  // some chunk appears twice inside one store's stream for one label set
+	MixRepl bool                  // some store holds series with and without the replica label
+	// at most one store fails (request then uses the WARN strategy): -1 = none
+	FailIdx   int
+	FailKind  int // vfc03FaultOpen | vfc03FaultRecv
+	FailAfter int // frames (messages) delivered before the Recv error
+	ErrShape  int
 }
 
 type vfc03StoreSpec struct {
@@ -45,7 +51,7 @@ type vfc03Want struct {
 }
 
 func vfc03Gen(rng *rand.Rand) *vfc03Scenario {
-	sc := &vfc03Scenario{Model: map[string]*vfc03Want{}}
+	sc := &vfc03Scenario{Model: map[string]*vfc03Want{}, FailIdx: -1}
 	sc.Strip = rng.Intn(2) == 0
 	sc.Class = vfkit.Pick(rng, []string{"raw", "raw", "raw", "aggr", "mixed", "nochunks"})
 	nStores := 1 + rng.Intn(5)
@@ -58,6 +64,7 @@ func vfc03Gen(rng *rand.Rand) *vfc03Scenario {
 		final  labels.Labels
 		chunks []vfc03Chunk
 	}
+	heldFinal := map[string]bool{}
 	for si := 0; si < nStores; si++ {
 		st := &vfc03StoreSpec{Name: fmt.Sprintf("vfstore-%d", si), WithoutRepl: rng.Intn(3) != 0}
 		if sc.Strip && !st.WithoutRepl {
@@ -72,6 +79,11 @@ func vfc03Gen(rng *rand.Rand) *vfc03Scenario {
 			reps = []string{""} // no replica label at all
 		default:
 			reps = []string{fmt.Sprintf("r%d", rng.Intn(3))}
+		}
+		if reps[0] != "" && rng.Intn(2) == 0 {
+			// the store also holds series that do not carry the replica label at all
+			reps = append(reps, "")
+			sc.MixRepl = true
 		}
 		density := 0.3 + rng.Float64()*0.7
 		var hs []held
@@ -121,16 +133,10 @@ func vfc03Gen(rng *rand.Rand) *vfc03Scenario {
 		sort.SliceStable(hs, func(i, j int) bool { return labels.Compare(hs[i].lset, hs[j].lset) < 0 })
 		var frames []vfc03Frame
 		for _, h := range hs {
-			w := sc.Model[h.final.String()]
-			if w == nil {
-				w = &vfc03Want{Lset: h.final, Chunks: map[string]vfc03Chunk{}}
-				sc.Model[h.final.String()] = w
-			} else {
+			if heldFinal[h.final.String()] {
 				sc.Shared = true
 			}
-			for _, c := range h.chunks {
-				w.Chunks[vfc03ChunkKey(vfc03Build(c))] = c
-			}
+			heldFinal[h.final.String()] = true
 			// split the chunk list over 1..3 consecutive frames
 			parts := 1
 			if len(h.chunks) > 1 {
@@ -188,6 +194,46 @@ func vfc03Gen(rng *rand.Rand) *vfc03Scenario {
 		st.Frames = frames
 		sc.Stores = append(sc.Stores, st)
 	}
+	// a third of the scenarios: one store (any position) fails, at open or after k delivered frames
+	if rng.Intn(3) == 0 {
+		sc.FailIdx = rng.Intn(nStores)
+		sc.ErrShape = rng.Intn(len(vfc03ErrShapes))
+		if rng.Intn(6) == 0 {
+			sc.FailKind = vfc03FaultOpen
+		} else {
+			sc.FailKind = vfc03FaultRecv
+			sc.FailAfter = rng.Intn(len(sc.Stores[sc.FailIdx].Frames) + 1)
+		}
+	}
+	// reference model: what the stores return = every frame a store delivers before it ends or fails
+	for si, st := range sc.Stores {
+		frames := st.Frames
+		if si == sc.FailIdx {
+			if sc.FailKind == vfc03FaultOpen {
+				frames = nil
+			} else {
+				frames = frames[:sc.FailAfter]
+			}
+		}
+		for _, f := range frames {
+			for _, ser := range f.Series {
+				final := ser.Lset
+				if sc.Strip {
+					b := labels.NewBuilder(ser.Lset)
+					b.Del(vfc03ReplicaLabel)
+					final = b.Labels()
+				}
+				w := sc.Model[final.String()]
+				if w == nil {
+					w = &vfc03Want{Lset: final, Chunks: map[string]vfc03Chunk{}}
+					sc.Model[final.String()] = w
+				}
+				for _, c := range ser.Chunks {
+					w.Chunks[vfc03ChunkKey(vfc03Build(c))] = c
+				}
+			}
+		}
+	}
 	var ws []*vfc03Want
 	for _, w := range sc.Model {
 		ws = append(ws, w)
@@ -227,7 +273,18 @@ func (sc *vfc03Scenario) witness(cfg vfc03Config) map[string]any {
 		sts = append(sts, map[string]any{"name": st.Name, "supports_without_replica_labels": st.WithoutRepl, "frames": vfc03FmtFrames(st.Frames)})
 	}
 	w["stores"] = sts
+	w["failing_store"] = sc.failDesc()
 	return w
+}
+
+func (sc *vfc03Scenario) failDesc() string {
+	if sc.FailIdx < 0 {
+		return "none"
+	}
+	if sc.FailKind == vfc03FaultOpen {
+		return fmt.Sprintf("%s: Series() open error (%s), strategy WARN", sc.Stores[sc.FailIdx].Name, vfc03ErrShapes[sc.ErrShape])
+	}
+	return fmt.Sprintf("%s (position %d of %d): Recv error (%s) after %d frames, strategy WARN", sc.Stores[sc.FailIdx].Name, sc.FailIdx, len(sc.Stores), vfc03ErrShapes[sc.ErrShape], sc.FailAfter)
 }
 
 // vfc03Run drives the real ProxyStore.Series over the scripted stores.
@@ -236,12 +293,16 @@ func vfc03Run(sc *vfc03Scenario, cfg vfc03Config, delaySeed int64) (out []vfc03O
 	var clients []Client
 	for i, st := range sc.Stores {
 		st := st
-		clients = append(clients, &vfc03Client{
+		cl := &vfc03Client{
 			Name: st.Name, Idx: i, MinT: math.MinInt64, MaxT: math.MaxInt64,
 			WithoutRepl: st.WithoutRepl, Sharding: true,
 			Frames:    func(*storepb.SeriesRequest) []vfc03Frame { return st.Frames },
 			DelaySeed: delaySeed + int64(i)*7919, Trace: tr,
-		})
+		}
+		if i == sc.FailIdx {
+			cl.FaultKind, cl.FaultAfter, cl.ErrShape = sc.FailKind, sc.FailAfter, sc.ErrShape
+		}
+		clients = append(clients, cl)
 	}
 	p := NewProxyStore(nil, nil, func() []Client { return clients }, component.Query, labels.EmptyLabels(), 0, cfg.Strategy,
 		WithLazyRetrievalMaxBufferedResponsesForProxy(cfg.Buf))
@@ -253,6 +314,9 @@ func vfc03Run(sc *vfc03Scenario, cfg vfc03Config, delaySeed int64) (out []vfc03O
 	}
 	if sc.Strip {
 		req.WithoutReplicaLabels = []string{vfc03ReplicaLabel}
+	}
+	if sc.FailIdx >= 0 {
+		req.PartialResponseStrategy = storepb.PartialResponseStrategy_WARN
 	}
 	srv := vfc03NewServer(context.Background())
 	done := make(chan error, 1)
@@ -271,8 +335,10 @@ func vfc03Check(sc *vfc03Scenario, out []vfc03Out, warns []string, err error) (f
 	if err != nil {
 		return "unexpected-error", "Series returned " + err.Error()
 	}
-	if len(warns) > 0 {
-		return "unexpected-warning", "warnings from healthy stores: " + strings.Join(warns, "; ")
+	for _, w := range warns {
+		if sc.FailIdx < 0 || !strings.Contains(w, sc.Stores[sc.FailIdx].Name) {
+			return "unexpected-warning", "warning that names no failed store: " + w
+		}
 	}
 	for i := 1; i < len(out); i++ {
 		c := labels.Compare(out[i-1].Lset, out[i].Lset)
@@ -334,9 +400,10 @@ func TestVF_C03(t *testing.T) {
 	r := vfkit.Start(t, "C03")
 	defer r.Finish()
 	r.Rule("case = 1..5 scripted stores (label-sorted streams over a small label universe so label sets repeat across stores; series split over 1..3 frames, frames packed into upstream batches, " +
-		"chunks duplicated across stores/frames, raw/aggregated/mixed/no chunks, replica label k with and without WithoutReplicaLabels, stores that cannot strip it => proxy re-sort) " +
+		"chunks duplicated across stores/frames, raw/aggregated/mixed/no chunks, replica label k with and without WithoutReplicaLabels, stores holding series with and without k, stores that cannot strip it => proxy re-sort; " +
+		"in 1/3 of the scenarios one store at a random position fails under the WARN strategy: Series() open error or Recv error (9 error shapes) after k delivered frames) " +
 		"x 12 (thorough 24) configurations of {eager, lazy buf 1/2/3/20} x ResponseBatchSize {0,1,2,5,64}, PRNG delays in every Recv, GOMAXPROCS cycled 1/2/4/16; " +
-		"oracle: flattened response == reference model (label sets strictly increasing, each once, exactly the distinct chunks (range+bytes) of all stores, time ordered, no error/warning) for every configuration; " +
+		"oracle: flattened response == reference model built from every frame a store delivered before it ended or failed (label sets strictly increasing, each once, exactly the distinct chunks (range+bytes), time ordered, no error, no warning that names no failed store) for every configuration; " +
 		"distinct = hash of scripted streams+configuration; non-trivial = a label set held by >= 2 streams or split over frames; signature = order in which the stores' frames were pulled")
 	n := r.N(400, 6000)
 	perScenario := r.N(12, 24)
@@ -397,6 +464,12 @@ func TestVF_C03(t *testing.T) {
 		r.Count("scenarios", 1)
 		if sc.Resort {
 			r.Count("scenarios_with_proxy_resort", 1)
+		}
+		if sc.FailIdx >= 0 {
+			r.Count("scenarios_with_failing_store_under_warn", 1)
+		}
+		if sc.MixRepl {
+			r.Count("scenarios_with_mixed_replica_label_presence", 1)
 		}
 		if sc.Shared {
 			r.Count("scenarios_with_shared_labelset", 1)
